@@ -36,6 +36,31 @@ package native
 //@   ensures result >= 0 ==> (forall k int :: old(*p) <= k && k < result ==> isSpace((*s)[k]))
 //@   ensures result < 0 ==> (0 <= *p && *p <= len(*s) + 4 && -10 <= result)
 
+// ---- text algebra for the escaping routines.  tcat is concatenation of texts; the
+// escaping functions work byte by byte, so they distribute over concatenation
+// (these are the defining properties, assumed).
+//@ pure func tcat(a text, b text) text
+//@ pure func htmlSpec(src text) text
+//@ pure func quoteSpec(src text, flags uint64) text
+//@ axiom tcat_assoc: forall a text, b text, c text :: tcat(tcat(a, b), c) == tcat(a, tcat(b, c))
+//@ axiom tcat_empty: forall a text :: tcat(a, txt("")) == a && tcat(txt(""), a) == a
+//@ axiom html_hom: forall a text, b text :: htmlSpec(tcat(a, b)) == tcat(htmlSpec(a), htmlSpec(b))
+//@ axiom html_empty: htmlSpec(txt("")) == txt("")
+//@ axiom quote_hom: forall a text, b text, f uint64 :: quoteSpec(tcat(a, b), f) == tcat(quoteSpec(a, f), quoteSpec(b, f))
+//@ axiom quote_empty: forall f uint64 :: quoteSpec(txt(""), f) == txt("")
+
+// html_escape(sp, nb, dp, &dn): reads only [sp, sp+nb), writes only [dp, dp+dn0) (C05, C06);
+// dn becomes the number of bytes written; on "output full" the bytes written are
+// exactly the escaping of the first ^ret input bytes (prefix-exact restart, C20).
+//@ func HTMLEscape assumed "native html_escape (pre-assembled machine code)"
+//@   requires nb >= 0 && ptrlo(s) <= ptrindex(s) && ptrindex(s) + nb <= ptrhi(s)
+//@   requires *dn >= 0 && ptrlo(dp) <= ptrindex(dp) && ptrindex(dp) + *dn <= ptrhi(dp)
+//@   modifies *dn, rawmem(dp)
+//@   ensures 0 <= *dn && *dn <= old(*dn)
+//@   ensures result >= 0 ==> (result == nb && rawtxt(dp, *dn) == htmlSpec(rawtxt(s, nb)))
+//@   ensures result < 0 ==> (0 <= -result - 1 && -result - 1 < nb && rawtxt(dp, *dn) == htmlSpec(rawtxt(s, -result - 1)))
+//@   ensures forall j int :: (ptrlo(dp) <= j && j < ptrindex(dp)) ==> rawat(dp, j) == old(rawat(dp, j))
+
 // ---- dispatch wiring (C13): each slot of the function-pointer table is filled
 // with the same-named routine of ONE instruction-set package; both variants fill
 // the same set of slots; init selects by CPU feature.
